@@ -502,6 +502,21 @@ func c17Run(a c17Arg) (out c17Out) {
 			c17Observe(w, cf, l) // answers during and right after the fault are not judged
 			w.AutoViol = nil
 			out.Fault++
+			{
+				// repeated in the same process (3 s later, past the index re-check interval): known finding, see DESIGN 8.2
+				vrt.Advance(3*time.Second, false)
+				vsP, obsP := c17Observe(w, cf, l)
+				if len(vsP) > 0 || obsP != ref {
+					for i := range vsP {
+						vsP[i].Sig = "repeated-in-the-same-process-after-failed-conversion:" + vsP[i].Sig
+					}
+					if len(vsP) == 0 {
+						vsP = append(vsP, h.V("repeatable-after-interruption", "repeated-in-the-same-process-after-failed-conversion:result-differs", "result %s differs from the uninterrupted %s", obsP, ref))
+					}
+					tagv(vsP, fmt.Sprintf("I/O error at mutating call %d, queries repeated 3 s later in the same process", k))
+				}
+				w.AutoViol = nil
+			}
 			u := cf.Items["U"]
 			w.PutManifest("r", "afterfault", u.MT, u.Data)
 			w.Delete("/v2/r/manifests/afterfault")
@@ -533,7 +548,7 @@ func init() {
 	h.Checks["C17"] = func(tier string) int {
 		rep := h.NewReport("C17", tier, "fault_enumeration")
 		rep.Rule = "every layout of a generated family (fallback indexes for sha256 and sha512 subjects listing subsets of artifacts with accurate / stale-size / stale-type / stale-annotation descriptors, missing manifests, artifacts of another subject, two tags adoptable for one subject, a coexisting converted response, tagged and untagged artifacts; plus, generated exhaustively: every assignment 'absent or listed in mode m' of three artifacts (one of them naming the other subject) to one fallback tag x missing manifest [x coexisting converted response x tagged artifacts in the thorough tier], and every pair of such assignments to two fallback tags (two modes quick, four modes thorough)) is written to disk by the harness and opened with a writable directory store and with a memory store over the directory; " +
-			"referrers(S) must be exactly the listed artifacts that exist and name S, all other tags / manifests / blobs stay served, index.json is marked converted, a second round and a reopen give the same result, the first access terminates (no enabled thread = dead-lock), and for every mutating filesystem call of the conversion a crash before it followed by a reopen gives the uninterrupted result, and so does an I/O error returned by it followed by a tag push and delete in the same process and a restart; non-trivial = crash images + conversions executed"
+			"referrers(S) must be exactly the listed artifacts that exist and name S, all other tags / manifests / blobs stay served, index.json is marked converted, a second round and a reopen give the same result, the first access terminates (no enabled thread = dead-lock), and for every mutating filesystem call of the conversion a crash before it followed by a reopen gives the uninterrupted result, and so does an I/O error returned by it followed by a tag push and delete in the same process and a restart (the queries repeated in the same process before that restart are a known finding); non-trivial = crash images + conversions executed"
 		rep.Assume = []string{"whether the fallback tag itself stays listed is left open", "process-crash model"}
 		lays := c17Layouts(tier)
 		var jobs []h.Job
